@@ -77,7 +77,7 @@ def main():
       "hooks": {
         "guard": "verif",
         "enable": "contract files zz_contracts*_verif.go (//go:build verif, package clause and comments only) are read by /verif/bin/gverif; go build -tags verif ./... compiles them as empty files",
-        "baseline_off_cmd": "cd /repo && go test -vet=off -count=1 -timeout 25m ./...",
+        "baseline_off_cmd": "cd /repo && GOFLAGS=-mod=mod GOPROXY=off GOSUMDB=off go test -vet=off -count=1 -timeout 25m ./...",
         "source_commits": subprocess.run(["git","-C","/repo","log","--format=%h %s","289a51e..HEAD"],capture_output=True,text=True).stdout.strip().split("\n"),
         "add_only": True
       },
